@@ -235,13 +235,19 @@ def _case(draw):
     poly = draw(_poly_strategy())
     n = len(poly)
     tol = draw(st.sampled_from(TOLS))
-    mode = draw(st.sampled_from(["level", "edge", "edge", "box", "vertex", "mid", "comb", "comb", "levelcomb"]))
+    mode = draw(st.sampled_from(["level", "edge", "edge", "box", "vertex", "mid", "comb", "comb", "levelcomb", "nearlevel",
+                                 "nearlevel"]))
     xs = [v[0] for v in poly]
     ys = [v[1] for v in poly]
     if mode == "level":
         v = poly[draw(st.integers(0, n - 1))]
         x = draw(st.floats(min(xs) - 5, max(xs) + 5))
         p = [x, v[1]]
+    elif mode == "nearlevel":
+        # almost, but not exactly, level with a vertex (inside / around the tolerance, far from every edge in x)
+        v = poly[draw(st.integers(0, n - 1))]
+        dy = tol * draw(st.sampled_from([1e-9, 1e-3, 0.3, 0.9, 1.1, 5.0])) * draw(st.sampled_from([-1.0, 1.0]))
+        p = [draw(st.floats(min(xs) - 5, max(xs) + 5)), v[1] + dy]
     elif mode == "edge":
         i = draw(st.integers(0, n - 1))
         a, b = poly[i - 1], poly[i]
@@ -295,7 +301,7 @@ def check_random(case, rec):
     rec.cls(f"mode_{case.get('mode', '?')}")
     rec.cls({0: "exp_on_edge", 1: "exp_inside", -1: "exp_outside"}[exp])
     level = any(p[1] == v[1] for v in poly)
-    if exp == 0 or level or case.get("mode") == "edge":
+    if exp == 0 or level or case.get("mode") in ("edge", "nearlevel"):
         rec.nontriv(case)
         if level:
             rec.cls("level_with_vertex")
